@@ -50,10 +50,10 @@ theorem digit_noTok : ∀ b : UInt8, isDigit b = true → noTok b = true := by
   apply Sonic.UInt8.forall_of_fin; decide +kernel
 
 theorem skipWs_noTok (buf : Buf) (i : Nat) : AllR noTok buf i (skipWs buf i) :=
-  skipWs_allR noTok ws_noTok digit_noTok buf i
+  skipWs_allR noTok ws_noTok buf i
 
 theorem number_noTok (buf : Buf) (i e : Nat) (h : number buf i = some e) : AllR noTok buf i e :=
-  number_allR noTok ws_noTok digit_noTok (by decide) (by decide) (by decide) (by decide) (by decide) buf i e h
+  number_allR noTok digit_noTok (by decide) (by decide) (by decide) (by decide) (by decide) buf i e h
 
 /-- `skip_container` on a well-formed container ends just after its closing bracket -/
 theorem container_skip (left right : UInt8) (hk : Kind left right) (buf : Buf) (f v e : Nat)
